@@ -2,6 +2,7 @@
    Only statements here; proofs are in Proofs/EscapeProofs.v and Proofs/LiteralProofs.v.
    Models: Model/Escape.v (sqlparser's EscapeQuotedString, the code prqlc delegates quoting to),
    Model/SqlLex.v (the reading side: a SQL lexer, standard and backslash-escape families),
+   Model/Literal.v reader_of / writer_of / flags_agree (which named dialect belongs to which family),
    Model/Literal.v (PRQL literal spellings -> values -> SQL text).
    Tables: Gen/GenLiteral.v, regenerated from /repo on every run (vplib/props/c08_gen.py). *)
 From Coq Require Import List NArith ZArith Bool.
@@ -12,6 +13,8 @@ Local Open Scope N_scope.
 
 Notation tbl := GenLiteral.escape_table.
 Notation rows := GenLiteral.based_rows.
+Notation wt := GenLiteral.writer_backslash_doubling.
+Notation rt := GenLiteral.reader_backslash_escape.
 
 (* ---------------------------------------------------------------- table obligations (what the source says now) *)
 
@@ -37,46 +40,99 @@ Print Assumptions c08_sqlparser_pinned.
 
 (* ---------------------------------------------------------------- strings *)
 
-(* What prqlc emits for a string literal NOW (fix e3af91e) is emit_literal_string s = sqlparser's Display of the value
-   with every quote doubled.  On the standard family the statement holds at FULL strength:
-   the emitted text is one string token whose value is s -- value preservation and non-interference in one equation. *)
-Theorem string_roundtrip : forall s, sql_lex std_sql (emit_literal_string s) = [TString s].
-Proof. exact literal_string_roundtrip_std. Qed.
+(* What prqlc emits for a string literal NOW is  emit_literal_string bs s  = sqlparser's Display of the value with every
+   quote doubled (fix e3af91e) and, when the dialect handler says string_literal_backslash_escape (flag bs), every
+   backslash doubled first (fix d2c1667).  The reading side d is a standard lexer ('' only) or one of the backslash
+   family (backslash escapes inside '...').
+
+   FULL STRENGTH, both classes: whenever the writer doubles backslashes exactly when the reader treats them as escapes,
+   the emitted text is one string token whose value is s -- for ALL strings. *)
+Theorem string_roundtrip : forall d s, sql_lex d (emit_literal_string (bs_escapes d) s) = [TString s].
+Proof. exact literal_string_roundtrip. Qed.
 Print Assumptions string_roundtrip.
+
+(* class 1, standard dialects (ansi, duckdb, generic, glaredb, mssql, postgres, sqlite): no backslash doubling *)
+Theorem string_roundtrip_standard : forall s, sql_lex std_sql (emit_literal_string false s) = [TString s].
+Proof. exact literal_string_roundtrip_std. Qed.
+Print Assumptions string_roundtrip_standard.
+
+(* class 2, backslash-escaping dialects (mysql -- where \% and \_ keep their backslash --, clickhouse, snowflake,
+   redshift): backslashes doubled.  Was refuted before d2c1667 (a\nb read back as a LF b; a\ swallowed the closing quote) *)
+Theorem string_roundtrip_backslash : forall d s, bs_escapes d = true -> sql_lex d (emit_literal_string true s) = [TString s].
+Proof. exact literal_string_roundtrip_bs. Qed.
+Print Assumptions string_roundtrip_backslash.
 
 (* no literal content changes the structure of the surrounding statement: in ANY context that ends between two
    tokens, followed by anything that does not start with a quote, the token sequence is the context's with exactly
-   one string token inserted -- for ALL strings *)
-Theorem literal_no_structure_change : forall s pre suf,
-  closed_prefix std_sql pre = true -> starts_with 39 suf = false ->
-  sql_lex std_sql (pre ++ emit_literal_string s ++ suf) = sql_lex std_sql pre ++ TString s :: sql_lex std_sql suf.
-Proof. exact literal_string_in_context_std. Qed.
+   one string token inserted -- for ALL strings, both classes *)
+Theorem literal_no_structure_change : forall d s pre suf,
+  closed_prefix d pre = true -> starts_with 39 suf = false ->
+  sql_lex d (pre ++ emit_literal_string (bs_escapes d) s ++ suf) = sql_lex d pre ++ TString s :: sql_lex d suf.
+Proof. exact literal_string_in_context. Qed.
 Print Assumptions literal_no_structure_change.
 
-(* ALL dialects.  FULL STATEMENT (still false, finding F6b, open):
-     forall d s, sql_lex d (emit_literal_string s) = [TString s].
-   Backslash family (MySQL, BigQuery, ClickHouse, Snowflake, Redshift): backslashes are emitted verbatim:
-   a\nb (backslash, n) is read back as a, LF, b; a trailing backslash swallows the closing quote *)
-Theorem string_roundtrip_backslash_refuted :
-  exists s, sql_lex bs_sql (emit_literal_string s) <> [TString s].
+(* Which NAMED dialect is configured how is table data, regenerated on every run: wt from sql/dialect.rs (Dialect ->
+   handler -> string_literal_backslash_escape), rt from the pinned sqlparser's dialect of the same name.
+   Obligation: every dialect except bigquery doubles backslashes exactly when its reading side treats them as escapes. *)
+Theorem c08_backslash_flags_agree : flags_agree [s_bigquery] wt rt = true.
+Proof. vm_compute. reflexivity. Qed.
+Print Assumptions c08_backslash_flags_agree.
+
+(* ... hence, for every dialect prqlc knows except bigquery: all strings, every context *)
+Theorem string_roundtrip_by_dialect : forall name w s, In (name, w) wt -> name <> s_bigquery ->
+  exists d, reader_of rt name = Some d /\ sql_lex d (emit_literal_string w s) = [TString s].
+Proof.
+  intros name w s Hin Hne. apply (LiteralProofs.string_roundtrip_by_dialect [s_bigquery] wt rt c08_backslash_flags_agree name w s Hin).
+  cbn [existsb]. rewrite orb_false_r. apply leqb_neq. exact Hne.
+Qed.
+Print Assumptions string_roundtrip_by_dialect.
+
+Theorem literal_no_structure_change_by_dialect : forall name w, In (name, w) wt -> name <> s_bigquery ->
+  exists d, reader_of rt name = Some d /\ forall s pre suf,
+    closed_prefix d pre = true -> starts_with 39 suf = false ->
+    sql_lex d (pre ++ emit_literal_string w s ++ suf) = sql_lex d pre ++ TString s :: sql_lex d suf.
+Proof.
+  intros name w Hin Hne. apply (string_in_context_by_dialect [s_bigquery] wt rt c08_backslash_flags_agree name w Hin).
+  cbn [existsb]. rewrite orb_false_r. apply leqb_neq. exact Hne.
+Qed.
+Print Assumptions literal_no_structure_change_by_dialect.
+
+(* BigQuery (finding F6c, open; deliberately left by d2c1667 because the book documents its output): its reading side
+   takes backslash escapes but prqlc does not double backslashes for it.  The configuration is pinned here, so a
+   repair of BigQuery breaks this obligation and the finding has to be revisited.
+   FULL STATEMENT (false):  forall s, sql_lex bs_sql (emit_literal_string false s) = [TString s]. *)
+Theorem c08_bigquery_configuration : writer_of wt s_bigquery = Some false /\ reader_of rt s_bigquery = Some bs_sql.
+Proof. vm_compute. split; reflexivity. Qed.
+Print Assumptions c08_bigquery_configuration.
+
+Theorem string_roundtrip_bigquery_refuted :
+  exists s, sql_lex bs_sql (emit_literal_string false s) <> [TString s].
 Proof. exists [97; 92; 110; 98]. vm_compute. discriminate. Qed.
-Print Assumptions string_roundtrip_backslash_refuted.
+Print Assumptions string_roundtrip_bigquery_refuted.
 
-Theorem string_unterminated_backslash_refuted :
-  exists s, sql_lex bs_sql (emit_literal_string s) = [TUnterminated].
+Theorem string_unterminated_bigquery_refuted :
+  exists s, sql_lex bs_sql (emit_literal_string false s) = [TUnterminated].
 Proof. exists [97; 92]. vm_compute. reflexivity. Qed.
-Print Assumptions string_unterminated_backslash_refuted.
+Print Assumptions string_unterminated_bigquery_refuted.
 
-(* PARTIAL for all dialects: every string without a backslash (any string at all when the dialect has no backslash escapes) *)
-Theorem string_roundtrip_partial : forall d s,
-  bs_free d s = true -> sql_lex d (emit_literal_string s) = [TString s].
-Proof. exact literal_string_roundtrip. Qed.
+(* PARTIAL for BigQuery: strings with neither backslash nor quote (a literal that starts with three quotes is a
+   triple-quoted string there, and a doubled quote is not an escape: neither is modelled by Model/SqlLex.v, so the hypothesis
+   excludes quotes altogether; the finding's class is its complement) *)
+Theorem string_roundtrip_bigquery_partial : forall s, plain_chars s = true ->
+  sql_lex bs_sql (emit_literal_string false s) = [TString s].
+Proof. exact (fun s H => literal_string_roundtrip_gen false bs_sql s (plain_compatible false bs_sql s H)). Qed.
+Print Assumptions string_roundtrip_bigquery_partial.
+
+(* PARTIAL for the two model families, any writer flag against any reader: the flags agree, or the string has no backslash *)
+Theorem string_roundtrip_partial : forall w d s,
+  compatible w d s = true -> sql_lex d (emit_literal_string w s) = [TString s].
+Proof. exact literal_string_roundtrip_gen. Qed.
 Print Assumptions string_roundtrip_partial.
 
-Theorem literal_no_structure_change_partial : forall d s pre suf,
-  bs_free d s = true -> closed_prefix d pre = true -> starts_with 39 suf = false ->
-  sql_lex d (pre ++ emit_literal_string s ++ suf) = sql_lex d pre ++ TString s :: sql_lex d suf.
-Proof. exact literal_string_in_context. Qed.
+Theorem literal_no_structure_change_partial : forall w d s pre suf,
+  compatible w d s = true -> closed_prefix d pre = true -> starts_with 39 suf = false ->
+  sql_lex d (pre ++ emit_literal_string w s ++ suf) = sql_lex d pre ++ TString s :: sql_lex d suf.
+Proof. exact literal_string_in_context_gen. Qed.
 Print Assumptions literal_no_structure_change_partial.
 
 (* ---- facts about the DEPENDENCY (sqlparser's EscapeQuotedString alone, Model/Escape.v emit_string), which is why
@@ -104,15 +160,16 @@ Theorem predoubled_passes_sqlparser : forall q s prev, esc q prev (dbl q s) = db
 Proof. exact esc_dbl. Qed.
 Print Assumptions predoubled_passes_sqlparser.
 
-Theorem emit_literal_string_is_doubling : forall s, emit_literal_string s = QUOTE :: dbl QUOTE s ++ [QUOTE].
+Theorem emit_literal_string_is_doubling : forall bs s, emit_literal_string bs s = QUOTE :: prep_literal bs s ++ [QUOTE].
 Proof. exact emit_literal_string_eq. Qed.
 Print Assumptions emit_literal_string_is_doubling.
 
-(* every string value has a PRQL spelling that denotes it, and the SQL emitted for it is read back as the same value *)
-Theorem string_literal_end_to_end : forall d v, bs_free d v = true ->
+(* every string value has a PRQL spelling that denotes it, and the SQL emitted for it is read back as the same value:
+   FULL STRENGTH for every reading side d whose writer flag fits it (every named dialect but bigquery, above) *)
+Theorem string_literal_end_to_end : forall d v,
   exists src, quoted_string tbl true src = Some (v, []) /\
-              emit_literal false (LString v) = Some (emit_literal_string v) /\
-              sql_lex d (emit_literal_string v) = [TString v].
+              (forall sq, emit_literal sq (bs_escapes d) (LString v) = Some (emit_literal_string (bs_escapes d) v)) /\
+              sql_lex d (emit_literal_string (bs_escapes d) v) = [TString v].
 Proof. exact (fun d v => LiteralProofs.string_literal_end_to_end tbl d v c08_escape_table_ok). Qed.
 Print Assumptions string_literal_end_to_end.
 
@@ -147,7 +204,7 @@ Print Assumptions int_no_structure_change.
 
 Theorem int_literal_end_to_end : forall d n, n <= I64_MAX ->
   lex_number (digits_of n) = Some (NInt n, []) /\
-  emit_literal false (LInt n) = Some (emit_int (Z.of_N n)) /\
+  (forall sq bs, emit_literal sq bs (LInt n) = Some (emit_int (Z.of_N n))) /\
   int_of_tokens (sql_lex d (emit_int (Z.of_N n))) = Some (Z.of_N n).
 Proof. exact LiteralProofs.int_literal_end_to_end. Qed.
 Print Assumptions int_literal_end_to_end.
@@ -178,10 +235,20 @@ Proof. exact LiteralProofs.date_literal_preserved. Qed.
 Print Assumptions date_literal_preserved.
 
 (* ---------------------------------------------------------------- non-vacuity *)
-Example c08_ex_injection : sql_lex std_sql (emit_literal_string [92; 39; 32; 79; 82; 32; 49; 61; 49; 32; 45; 45]) = [TString [92; 39; 32; 79; 82; 32; 49; 61; 49; 32; 45; 45]].
+Example c08_ex_injection : sql_lex std_sql (emit_literal_string false [92; 39; 32; 79; 82; 32; 49; 61; 49; 32; 45; 45]) = [TString [92; 39; 32; 79; 82; 32; 49; 61; 49; 32; 45; 45]].
 Proof. vm_compute. reflexivity. Qed.
-Example c08_ex_ok_bs : bs_free bs_sql [105; 116; 39; 115] = true.
+(* the two strings that refuted the backslash family before d2c1667, as MySQL reads them now:  a\nb  and  a\ *)
+Example c08_ex_mysql_backslash_n : emit_literal_string true [97; 92; 110; 98] = [39; 97; 92; 92; 110; 98; 39]
+                                   /\ sql_lex mysql_sql (emit_literal_string true [97; 92; 110; 98]) = [TString [97; 92; 110; 98]].
+Proof. vm_compute. split; reflexivity. Qed.
+Example c08_ex_mysql_trailing_backslash : sql_lex mysql_sql (emit_literal_string true [97; 92]) = [TString [97; 92]].
 Proof. vm_compute. reflexivity. Qed.
+Example c08_ex_mysql_wildcard : sql_lex mysql_sql (emit_literal_string true [92; 37; 92; 39]) = [TString [92; 37; 92; 39]].   (* \%\' *)
+Proof. vm_compute. reflexivity. Qed.
+Example c08_ex_compatible : compatible false bs_sql [105; 116; 39; 115] = true /\ compatible false bs_sql [97; 92] = false.
+Proof. vm_compute. split; reflexivity. Qed.
+Example c08_ex_mysql_in_table : In ([109;121;115;113;108], true) wt /\ reader_of rt [109;121;115;113;108] = Some mysql_sql.
+Proof. vm_compute. split; [tauto | reflexivity]. Qed.
 Example c08_ex_context : closed_prefix std_sql [83;69;76;69;67;84;32] = true.                       (* "SELECT " *)
 Proof. vm_compute. reflexivity. Qed.
 Example c08_ex_hex : based_numbers rows [48;120;49;102] = Some (31, []).                              (* 0x1f *)
